@@ -27,14 +27,15 @@ RulePool == <<
   Bin("sub", Val(VDur(DurMaxNs)), Val(VDur(DurMinNs))),          \* out of range (a panic here would lose every outcome)
   Bin("add", Val(VInt(I128Max)), A) >>
 
-Inputs == << VMap(<< <<S("a"), I(1)>> >>), VMap(<< <<S("a"), I(2)>>, <<S("zz"), I(5)>> >>), I(7), VNone >>
+Inputs == << VMap(<< <<S("a"), I(1)>> >>), VMap(<< <<S("a"), I(2)>>, <<S("zz"), I(5)>> >>), I(7), VNone, VMap(<< <<S("a"), VNone>> >>) >>
 
 OkEcho == <<[r |-> "echo"]>>
 Fails(msg) == <<[r |-> "fail", msg |-> S(msg)]>>
 \* failure patterns: <<f fails?, g fails?>>
 Patterns == << <<FALSE, FALSE>>, <<FALSE, TRUE>>, <<TRUE, FALSE>>, <<TRUE, TRUE>> >>
 Funcs(fp) == << [name |-> S("f"), cacheable |-> TRUE, suspend |-> 0, script |-> IF Patterns[fp][1] THEN Fails("f failed") ELSE OkEcho],
-                [name |-> S("g"), cacheable |-> FALSE, suspend |-> 0, script |-> IF Patterns[fp][2] THEN Fails("g failed") ELSE OkEcho] >>
+                \* g's failure is an error value of the library itself (what `param.try_into()?` produces in a user function)
+                [name |-> S("g"), cacheable |-> FALSE, suspend |-> 0, script |-> IF Patterns[fp][2] THEN <<[r |-> "failtype"]>> ELSE OkEcho] >>
 
 RName(i) == <<114, 48 + i>>      \* "r1", "r2", ...
 RS == [rules |-> [i \in 1..Len(c.rules) |-> [name |-> RName(i), expr |-> RulePool[c.rules[i]]]],
